@@ -30,7 +30,7 @@ Section Proofs.
 
   Lemma within_step h o : within h -> within (sstep h o).
   Proof.
-    unfold within. intros H. destruct o as [c| |]; cbn [sstep].
+    unfold within. intros H. destruct o as [c| | | |]; cbn [sstep].
     - unfold hist_do. cbn [undo_list redo_list length]. destruct (interesting ign c).
       + pose proof (trim_length limit (undo_list h ++ [c])). lia.
       + lia.
@@ -38,6 +38,9 @@ Section Proofs.
       apply rev_cons_length in E. cbn [undo_list redo_list]. rewrite rev_length, app_length. cbn [length]. lia.
     - unfold hist_redo. destruct (rev (redo_list h)) as [|c r] eqn:E; [exact H|].
       apply rev_cons_length in E. cbn [undo_list redo_list]. rewrite rev_length, app_length. cbn [length]. lia.
+    - unfold hist_undo_drop. destruct (rev (undo_list h)) as [|c r] eqn:E; [exact H|].
+      apply rev_cons_length in E. cbn [undo_list redo_list]. rewrite rev_length. lia.
+    - cbn. lia.
   Qed.
 
   Lemma within_live ops : forall h, within h -> within (live h ops).
